@@ -715,6 +715,58 @@ const NULLT: &str = "null-type";
 /// same-named types from different modules: F7 class
 const SAME: &str = "same-name";
 
+// Named types whose RAW schema (what `json_schema()` returns) differs from the
+// schema after the generator's visitors ran, placed both in bodies (shared,
+// visited generator) and behind Query / Path / header structs (per-extractor
+// generators whose raw definitions are merged into components afterwards).
+fn ex_shared_kind() -> SharedKind {
+    SharedKind::Warm
+}
+fn ex_shared_label() -> SharedLabel {
+    SharedLabel("a label".into())
+}
+/// A unit enum carrying an example.
+#[derive(Serialize, Deserialize, JsonSchema, Debug, Clone)]
+#[schemars(example = "ex_shared_kind")]
+pub enum SharedKind {
+    Cold,
+    Warm,
+    Hot,
+}
+/// A string newtype carrying an example and a length limit.
+#[derive(Serialize, Deserialize, JsonSchema, Debug, Clone)]
+#[schemars(example = "ex_shared_label")]
+pub struct SharedLabel(#[schemars(length(min = 1, max = 32))] pub String);
+/// A documented newtype around a named type: raw schema is a `$ref` with siblings.
+#[derive(Serialize, Deserialize, JsonSchema, Debug, Clone)]
+pub struct SharedWrapper(pub SharedKind);
+#[derive(Serialize, Deserialize, JsonSchema, Debug, Clone)]
+pub struct SharedHolder {
+    /// documented reference
+    pub kind: SharedKind,
+    pub label: Option<SharedLabel>,
+    pub wrapped: SharedWrapper,
+    #[deprecated]
+    pub old: Option<SharedWrapper>,
+}
+#[derive(Serialize, Deserialize, JsonSchema, Debug, Clone)]
+pub struct QShared {
+    pub kind: SharedKind,
+    pub label: Option<SharedLabel>,
+    pub wrapped: Option<SharedWrapper>,
+}
+#[derive(Serialize, Deserialize, JsonSchema, Debug, Clone)]
+pub struct PShared {
+    pub kind: SharedKind,
+    pub label: SharedLabel,
+    pub wrapped: SharedWrapper,
+}
+#[derive(Serialize, Deserialize, JsonSchema, Debug, Clone)]
+pub struct HShared {
+    #[serde(rename = "x-label")]
+    pub label: SharedLabel,
+}
+
 pub fn build_main() -> Reg {
     let mut r = Reg::new("main");
     // primitives and std types used directly as bodies (inline schemas)
@@ -856,6 +908,15 @@ pub fn build_main() -> Reg {
     r.path::<PTyped>("typed", G, &["id", "e", "n", "f"]);
     r.path::<PNewtype>("newtype", G, &["k", "d"]);
     r.path::<PDocs>("docs", G, &["project", "index"]);
+    // the same named types in bodies AND behind parameter / header structs
+    r.body::<SharedKind>("shared_kind", G);
+    r.body::<SharedLabel>("shared_label", G);
+    r.body::<SharedWrapper>("shared_wrapper", G);
+    r.body::<SharedHolder>("shared_holder", G);
+    r.body::<Vec<SharedWrapper>>("vec_shared_wrapper", G);
+    r.query::<QShared>("shared", G);
+    r.path::<PShared>("shared", G, &["kind", "label", "wrapped"]);
+    r.headers::<HShared>("shared", G);
     r.headers::<HOne>("one", G);
     r.headers::<HSeveral>("several", G);
     r
